@@ -7,6 +7,9 @@ XPathMap = Dict[str, Opt[Elem]]
 XNode = Opaque("XNode")
 StrMap = Dict[str, str]
 LangT = Opaque("LangT")      # one language's itext entries (path -> forms), abstract here
+TrigL = Opaque("TrigL")      # list of (target name, calculation) pairs of one trigger, abstract here
+BindVal = Union[str, StrMap]
+LabelVal = Union[str, StrMap]
 declare_class("Survey", "pyxform.survey.Survey")
 declare_class("Section", "pyxform.section.Section")
 
@@ -15,7 +18,9 @@ SurveyK = Obj("Survey", name=str, _xpath=Opt[XPathMap], attribute=Opt[StrMap], i
               version=Opt[str], prefix=Opt[str], delimiter=Opt[str], title=str, style=Opt[str],
               submission_url=Opt[str], public_key=Opt[str], auto_send=Opt[str], auto_delete=Opt[str],
               entity_features=Opt[List[str]], namespaces=Opt[str], default_language=str,
-              _translations=Dict[str, LangT])
+              _translations=Dict[str, LangT], setvalues_by_triggering_ref=Dict[str, TrigL],
+              type=str, bind=Opt[Dict[str, BindVal]], flat=Opt[bool], trigger=Opt[str], default=Opt[str],
+              label=Opt[LabelVal], hint=Opt[LabelVal], guidance_hint=Opt[LabelVal], media=Opt[Dict[str, LabelVal]])
 
 
 @spec
@@ -56,6 +61,7 @@ def _(self: SurveyX) -> None:
     properties("C03", "C14", "C17")
     no_native("needs survey-element objects: exercised through the e2e oracles")
     locals(xpaths=XPathMap)
+    modifies_fields(self=("_xpath",))
     fresh_needed = not bool(self._xpath)
     d = Descendants(self, "lambda i: isinstance(i, Question | Section)")
     n = len(d)
@@ -184,13 +190,6 @@ def _(self: SurveyK) -> List[XNode]:
     may_raise(PyXFormError, when=True)
 
 
-@contract("Survey.xml_descendent_bindings")
-def _(self: SurveyK) -> List[XNode]:
-    trusted("binds and model-level setvalues of all elements in document order: C05/C10 kernels")
-    ensures(result == BindingNodes(self))
-    may_raise(PyXFormError, when=True)
-
-
 @contract("Survey.xml_actions")
 def _(self: SurveyK) -> List[XNode]:
     trusted("model-level actions (setgeopoint, recordaudio): C02 kernel")
@@ -200,6 +199,7 @@ def _(self: SurveyK) -> List[XNode]:
 @contract("Survey.xml_model")
 def _(self: SurveyK) -> XNode:
     properties("C01", "C11", "C19")
+    functional("SurveyModel")
     no_native("needs survey-element objects: exercised through the e2e oracles")
     may_raise(PyXFormError, when=True)
     s1 = replace(self, _translations=TransSetup(self, 1))
@@ -210,7 +210,8 @@ def _(self: SurveyK) -> XNode:
     o_itext = 1 if has_sub else 0
     o_prim = o_itext + (1 if has_itext else 0)
     insts = InstanceNodes(s3)
-    binds = BindingNodes(s3)
+    dd = Descendants(s3, "lambda i: not isinstance(i, Option | Tag)")
+    binds = ModelNodes(dd, len(dd))
     acts = ActionNodes(s3)
     ensures(result.nodeType == 1 and result.tagName == "model")
     # C19: the entities version is declared exactly when the form declares an entity
@@ -247,6 +248,8 @@ def _(self: Obj("Survey", entity_features=Opt[List[str]], namespaces=Opt[str])) 
     properties("C01", "C19", "C11")
     trusted("str.split / replace chains over the namespaces setting are outside the solvers' reach: the contract is "
             "checked by bounded native search (small-scope exhaustive token strings), never counted as proved")
+    native_only()
+    functional("NsMapOf")
     # C01: a declaration that cannot be written as a namespace declaration is refused, never emitted
     raises(PyXFormError, when=InvalidNsToken(self.namespaces))
     ensures(all(k == "xmlns" or (k.startswith("xmlns:") and matches(k[6:], "NCName")) for k in result))
@@ -264,3 +267,164 @@ def _(self: Obj("Survey", entity_features=Opt[List[str]], namespaces=Opt[str])) 
     ensures(all(implies(("xmlns:" + p) not in STD_NSMAP, result.get("xmlns:" + p) in DeclaredUris(final_self.namespaces, p))
                 for p, u in FirstDeclarations(self.namespaces)))
     ensures(all(k in STD_NSMAP or k == "xmlns:entities" or DeclaresPrefix(self.namespaces, k[6:]) for k in result))
+
+
+# ---------------------------------------------------------------- binds and model-level setvalues (C10, C05)
+
+@spec
+def ElemBinds(e: Elem) -> List[XNode]:
+    """The bind(s) of one element (SurveyElement.xml_bindings: proved in contracts/survey_element.py)."""
+    uninterpreted()
+
+
+@spec
+def ElemDynDefault(e: Elem) -> Opt[XNode]:
+    """The first-load setvalue of one element, if its default is dynamic (get_setvalue_node_for_dynamic_default)."""
+    uninterpreted()
+
+
+@spec
+def RepeatAncestors(e: Elem) -> List[Tuple[Elem, int]]:
+    """Ancestors of type repeat, nearest first (iter_ancestors with the repeat filter)."""
+    uninterpreted()
+
+
+@contract("Elem.xml_bindings", module="pyxform.survey_element")
+def _(self: Elem, survey: SurveyK) -> List[XNode]:
+    trusted("family view of SurveyElement.xml_bindings on an element reference; the method itself is proved on its record view")
+    ensures(result == ElemBinds(self))
+    may_raise(PyXFormError, when=True)
+
+
+@contract("Elem.get_setvalue_node_for_dynamic_default", module="pyxform.survey_element")
+def _(self: Elem, survey: SurveyK, in_repeat: bool = False) -> Opt[XNode]:
+    trusted("family view of get_setvalue_node_for_dynamic_default (proved on its record view); as called from the model: in_repeat=False")
+    ensures(result == ElemDynDefault(self))
+    may_raise(PyXFormError, when=True)
+
+
+@contract("Elem.iter_ancestors", module="pyxform.survey_element")
+def _(self: Elem, condition: Fn(Elem, ret=bool)) -> List[Tuple[Elem, int]]:
+    trusted("parent-chain traversal; the filter passed here selects ancestors of type repeat")
+    ensures(result == RepeatAncestors(self))
+
+
+@spec
+def ModelNodes(d: List[Elem], i: int) -> List[XNode]:
+    """C10/C05: per element in document order its bind(s), then its first-load setvalue iff it has a dynamic default
+    and no repeat ancestor (defaults inside repeats are emitted in the repeat's body instead)."""
+    if i <= 0:
+        return []
+    e = d[i - 1]
+    if len(RepeatAncestors(e)) == 0 and ElemDynDefault(e) is not None:
+        return ModelNodes(d, i - 1) + ElemBinds(e) + [some(ElemDynDefault(e))]
+    return ModelNodes(d, i - 1) + ElemBinds(e)
+
+
+@contract("Survey.xml_descendent_bindings")
+def _(self: SurveyK) -> List[XNode]:
+    properties("C10", "C05", "C02")
+    no_native("needs survey-element objects: exercised through the e2e oracles")
+    may_raise(PyXFormError, when=True)
+    d = Descendants(self, "lambda i: not isinstance(i, Option | Tag)")
+    ensures(result == ModelNodes(d, len(d)))
+
+    @loop(0, index="i")
+    def _():
+        invariant(_yield == ModelNodes(d, i))
+
+
+# ---------------------------------------------------------------- output text (C15: both layouts serialise the same tree)
+
+@spec
+def Ser(x: XNode, indent: str, addindent: str, newl: str) -> str:
+    """Text written by x.writexml (proved against the serialisation spec in contracts/utils.py)."""
+    uninterpreted()
+
+
+@spec
+def SurveyXml(s: SurveyK) -> XNode:
+    """The h:html tree built by Survey.xml()."""
+    uninterpreted()
+
+
+@spec
+def NsMapOf(s: Obj("Survey", entity_features=Opt[List[str]], namespaces=Opt[str])) -> Dict[str, str]:
+    """Namespace declarations of the form (Survey.get_nsmap: bounded contract above)."""
+    uninterpreted()
+
+
+@spec
+def SurveyModel(s: SurveyK) -> XNode:
+    """The model element (Survey.xml_model, proved above)."""
+    uninterpreted()
+
+
+@spec
+def BodyControls(s: SurveyK) -> List[XNode]:
+    """Body controls of the top-level rows in order (Section.xml_control; C04 kernel)."""
+    uninterpreted()
+
+
+@contract("Survey.validate")
+def _(self: SurveyK) -> None:
+    trusted("name validation of every element (C17/C02 kernels: is_xml_tag, sibling and section name uniqueness)")
+    may_raise(PyXFormError, when=True)
+
+
+@contract("Survey._validate_namespace_prefixes")
+def _(self: SurveyK, nsmap: Dict[str, str]) -> None:
+    trusted("refuses names/attributes with an undeclared prefix (bounded e2e C01 oracle)")
+    may_raise(PyXFormError, when=True)
+
+
+@contract("Survey.xml_control")
+def _(self: SurveyK, survey: SurveyK) -> List[XNode]:
+    trusted("Section.xml_control: controls of the children in order, None skipped (C04 kernel)")
+    ensures(result == BodyControls(self))
+    may_raise(PyXFormError, when=True)
+
+
+@contract("Survey.xml")
+def _(self: SurveyK) -> XNode:
+    properties("C01", "C11")
+    no_native("needs survey-element objects: exercised through the e2e oracles")
+    functional("SurveyXml")
+    abstract_regex("pyxform.utils.BRACKETED_TAG_REGEX")
+    modifies_fields(self=("_xpath",))          # the reference table is (re)built; nothing else of the survey changes
+    may_raise(PyXFormError, when=True)
+    # C01: the ODK XForm skeleton — html root carrying the namespace declarations, one head with exactly one title and
+    # one model, one body
+    ensures(result.nodeType == 1 and result.tagName == "h:html" and result.attrs == NsMapOf(self))
+    ensures(len(result.kids) == 2 and result.kids[0].tagName == "h:head" and result.kids[1].tagName == "h:body")
+    ensures(len(result.kids[0].attrs) == 0 and len(result.kids[0].kids) == 2
+            and result.kids[0].kids[0].tagName == "h:title" and result.kids[0].kids[1] == SurveyModel(final_self))
+    # C11: the title is the form_title setting, as character data
+    ensures(len(result.kids[0].kids[0].attrs) == 0 and len(result.kids[0].kids[0].kids) == 1
+            and result.kids[0].kids[0].kids[0].nodeType == 3 and result.kids[0].kids[0].kids[0].data == self.title)
+    # C11: style is the body class, and nothing else is
+    ensures(result.kids[1].kids == BodyControls(final_self))
+    ensures(implies(bool(self.style), len(keys(result.kids[1].attrs)) == 1 and result.kids[1].attrs["class"] == self.style))
+    ensures(implies(not bool(self.style), len(keys(result.kids[1].attrs)) == 0))
+
+    @loop(0, index="t")
+    def _():
+        invariant(True)
+
+
+@contract("Survey._to_ugly_xml")
+def _(self: SurveyK) -> str:
+    properties("C15", "C01")
+    no_native("needs survey-element objects: exercised through the e2e oracles")
+    may_raise(PyXFormError, when=True)
+    # compact output: the XML declaration followed by the tree written with empty layout strings
+    ensures(result == '<?xml version="1.0"?>' + Ser(SurveyXml(self), "", "", ""))
+
+
+@contract("Survey._to_pretty_xml")
+def _(self: SurveyK) -> str:
+    properties("C15", "C01")
+    no_native("needs survey-element objects: exercised through the e2e oracles")
+    may_raise(PyXFormError, when=True)
+    # pretty output: the same tree, written with two-space indentation and newlines — and nothing else done to it
+    ensures(result == '<?xml version="1.0"?>' + "\n" + Ser(SurveyXml(self), "", "  ", "\n"))
